@@ -51,6 +51,14 @@ pub fn run(out: &mut Out, thorough: bool) {
             }
         };
         out.check(&format!("boundary/{}/verify", name), "sign_multiattr;verify_multiattr", vec![short(&v)], ok, &[], || s.verify_multiattr(pa, &b1, &m));
+        // the single-attribute interface on the same boundary value
+        match try_call(|| Signature::<CL03<CS>>::sign(pa, sa, &b1, &m[0])) {
+            Ok(s1) => {
+                out.check(&format!("boundary/{}/single-verify", name), "sign;verify", vec![short(&v)], ok, &[], || s1.verify(pa, &b1, &m[0]));
+                out.check(&format!("boundary/{}/single-bytes-roundtrip-verify", name), "to_bytes;from_bytes;verify", vec![short(&v)], ok, &[], || Signature::<CL03<CS>>::from_bytes(&s1.to_bytes()).verify(pa, &b1, &m[0]));
+            }
+            Err(e) => out.push(&format!("boundary/{}/single-sign", name), "sign", vec![short(&v)], format!("panic:{}", e), &["expect-accept"]),
+        }
         let cpk = CL03CommitmentPublicKey::generate::<CS>(Some(pa.N.clone()), Some(2));
         for u in [vec![0usize], vec![1usize], vec![0, 1], vec![]] {
             let rev = pick(&m, &complement(2, &u));
